@@ -67,6 +67,12 @@ class CumProdPlugin(PrimitiveLeafPlugin):
     """IR-only lowering of ``lax.cumprod`` via ONNX ``CumProd``."""
 
     def lower(self, ctx: LoweringContextProtocol, eqn: Any) -> None:
+        opset = int(getattr(ctx.builder, "opset", 0) or 0)
+        if opset < 26:
+            raise NotImplementedError(
+                "lax.cumprod is lowered to ONNX CumProd, which exists from opset 26 "
+                f"on; the requested opset is {opset}."
+            )
         operand_var = eqn.invars[0]
         out_var = eqn.outvars[0]
 
